@@ -42,6 +42,9 @@ def one_run(tid, sc, rng):
     kind, K = sc["payoff"]
     if kind == "forward":
         payoff = Forward(strike=K * U)
+    elif kind == "vcall":
+        # a vector of strikes: a payoff of dimension 3 (C05 is quantified over any payoff dimension)
+        payoff = Vanilla(strike=[K * U, (K + 8) * U, (K + 16) * U], payoff_type=PayoffType.CALL)
     else:
         payoff = Vanilla(strike=K * U, payoff_type=PayoffType.CALL if kind == "call" else PayoffType.PUT)
     product = Product(Spot(), payoff, maturity=1.0, notional=1.0)
@@ -60,7 +63,8 @@ def one_run(tid, sc, rng):
                                    initial_level=sc["L0"], maximum_level=sc["LMax"], initial_mc_paths=sc["N0"], seed=sc["seed"],
                                    nb_of_processes=1)
     engine = eng.Engine(conf, cp)
-    hdr = {"kind": f"run:{kind}:{'fixed' if sc['fixed'] else 'adaptive'}", "K": int(K), "payoff": kind, "L0": sc["L0"]}
+    hdr = {"kind": ("run:vector-payoff:" if kind == "vcall" else f"run:{kind}:") + ('fixed' if sc['fixed'] else 'adaptive'),
+           "K": int(K), "payoff": kind, "L0": sc["L0"]}
     ev = []
     real_create, real_cos, real_normal = eng.create_mlmc_statistics, eng.COSPricer, np.random.normal
 
@@ -210,6 +214,10 @@ def main():
         sc = {"fixed": fixed, "L0": L0, "LMax": LMax, "N0": N0, "plan": plan, "seed": rng.randint(1, 10 ** 6),
               "sigma": rng.choice([0, 4, 8]), "a": rng.randint(-12, 12),
               "payoff": rng.choice([("forward", rng.randint(-20, 20)), ("call", rng.choice([-16, 0, 10, 48])), ("put", rng.choice([-8, 6, 32]))])}
+        traces.append(one_run(f"u{len(traces)}", sc, rng))
+    # a payoff of dimension 3 (vector of strikes): known finding C05-vector-payoff
+    for fixed in (True, False):
+        sc = {"fixed": fixed, "L0": 0, "LMax": 1, "N0": 2, "plan": [[2, 2], [3, 3]], "seed": 5, "sigma": 4, "a": 0, "payoff": ("vcall", 0)}
         traces.append(one_run(f"u{len(traces)}", sc, rng))
     for rep in range(4 if quick else 16):
         sc = {"LMax": rng.choice([1, 1, 2]), "N0": rng.choice([2, 3]), "seed": rng.randint(1, 10 ** 6), "sigmas": rng.choice([(0, 0), (8, 8), (8, 16)]),
